@@ -7,5 +7,6 @@ CONSTANTS
   GEN = TRUE
   VERIFY_CKSUM = TRUE
   UNK_ERR_IS_ERR = TRUE
+  ROUTER_VERIFY_CKSUM = TRUE
 INVARIANTS DatagramsUnaffected ErrorsReachReceivers RepliesOnlyToRequests Emit
 CHECK_DEADLOCK FALSE
